@@ -1,6 +1,6 @@
 //! Templates: IdentityFusion, ReciprocalFusion, ReduceMeanAxesFusion, CastElimination.
 
-use crate::c01::{Built, Template, ax};
+use crate::c01::{Built, Template, ax, ax2};
 use crate::patterns::*;
 use crate::prog::{AttrV, Dt, Meta};
 
@@ -15,7 +15,7 @@ fn identity(thorough: bool) -> Template {
     const OPS: [(&str, f32); 5] = [("Add", 0.0), ("Sub", 0.0), ("Mul", 1.0), ("Div", 1.0), ("Identity", 0.0)];
     let axes = vec![
         ax("op", 5, false),
-        ax("const shape", CS_N, true),
+        ax2("const shape", CS_N),
         ax("operand order", 2, true),
         ax("const value", 4, true),
         ax("dtype", 2, true),
@@ -84,7 +84,7 @@ fn reciprocal(thorough: bool) -> Template {
     let data = data_shapes(thorough);
     let nd = data.len();
     let axes = vec![
-        ax("const shape", CS_N, true),
+        ax2("const shape", CS_N),
         ax("const value", 3, true),
         ax("data shape", nd, false),
         ax("input metadata", 3, false),
